@@ -224,15 +224,7 @@ def run(ctx):
                 ok = c == want.get(cls) and then_ok and err_else
                 d = "accepts iff %s; Ok on true: %s; Err otherwise: %s" % (S.show(c), then_ok, err_else)
             ctx.inst("C04.R3", "check_arity[%s][%s]" % (who, cls), ok, d, H.loc(aa["body"]))
-    hcan = core.hir_fn(CORE + "values::FunctionArity::can_accept")
-    nn = H.pat_binds(hcan["params"][1])[0]
-    mt = H.final_expr(hcan["body"])
-    for aa in mt["arms"]:
-        cls = "|".join(H.last(v) for v in H.pat_variants(aa["pat"]))
-        env = S.Env(roles={nn: ("n",)})
-        positional(aa["pat"], env)
-        c = S.norm(aa["body"], env)
-        ctx.inst("C04.R3", "can_accept[%s]" % cls, c == want.get(cls), "accepts iff %s" % S.show(c), H.loc(aa["body"]))
+    can_accept_rule(ctx, "C04.R3", core)
     hga = core.hir_fn(CORE + "values::LambdaDef::get_arity")
     t = S.norm(hga["body"], S.Env())
     ARGSF = ("field", "args", ("var", "self"))
@@ -306,3 +298,22 @@ def special_names(ctx, rid, core):
         ctx.inst(rid, "special-name=%s" % nm, nm in special_ev and nm in special_cf,
                  "resolved by the evaluator before the environment lookup: %s; skipped by collect_free_variables: %s (a name in one set only is either captured although it is never read, or reported unbound although it always resolves)" % (nm in special_ev, nm in special_cf), H.loc(hcf["body"]))
 
+
+ARITY_WANT = {"Exact": ("bin", "Eq", ("n",), ("pb", 0)), "AtLeast": ("bin", "Ge", ("n",), ("pb", 0)),
+              "Between": ("bin", "And", ("bin", "Ge", ("n",), ("pb", 0)), ("bin", "Le", ("n",), ("pb", 1)))}
+
+
+def can_accept_rule(ctx, rid, core):
+    """FunctionArity::can_accept(n) is `n == k` / `n >= min` / `min <= n <= max` (shared with C13: it decides whether a callback gets the index)"""
+    hcan = core.hir_fn(CORE + "values::FunctionArity::can_accept")
+    nn = H.pat_binds(hcan["params"][1])[0]
+    mt = H.final_expr(hcan["body"])
+    if H.kind(mt) != "Match":
+        ctx.inst(rid, "can_accept", None, "can_accept is not a single match on the arity class", H.loc(hcan["body"]))
+        return
+    for aa in mt["arms"]:
+        cls = "|".join(H.last(v) for v in H.pat_variants(aa["pat"]))
+        env = S.Env(roles={nn: ("n",)})
+        positional(aa["pat"], env)
+        c = S.norm(aa["body"], env)
+        ctx.inst(rid, "can_accept[%s]" % cls, c == ARITY_WANT.get(cls), "accepts iff %s" % S.show(c), H.loc(aa["body"]))
